@@ -27,6 +27,7 @@ Lemma pass_not_out {A B} (o : res A) : o <> Out -> @pass A B o <> Out \/ exists 
 Proof. destruct o; simpl; intros H; try (left; congruence). right; eauto. Qed.
 
 Ltac szsolve :=
+  repeat match goal with H : _ /\ _ |- _ => destruct H end;
   repeat match goal with
          | |- _ /\ _ => split
          | |- _ -> _ => intro
@@ -223,3 +224,264 @@ Section GenericSize2.
       split; [lia|]. intros Hx; destruct (Hne Hx).
   Qed.
 End GenericSize2.
+
+(* FlattenSlices *)
+Section GenericSizeFS.
+  Context {Lt : Type} (nxl : Lt -> ret (list Z) Lt) (szl : Lt -> nat) (F : nat).
+  Hypothesis Hszl : szL nxl szl F.
+
+  Lemma iflatslices_sz n : forall b q o b' q' ev,
+    iflatslices nxl n b q = (o, (b', q'), ev) ->
+    (match o with
+     | Item _ => length b' + szl q' < length b + szl q
+     | Out => True
+     | _ => length b' + szl q' <= length b + szl q
+     end)%nat /\
+    ((length b + szl q + (if b then 1 else 0) < n)%nat -> (szl q <= F)%nat -> o <> Out).
+  Proof.
+    induction n as [|n IH]; intros b q o b' q' ev Hc; simpl in Hc.
+    - inv_ret Hc. szsolve.
+    - destruct b as [|x b].
+      + destruct (nxl q) as [[o1 q1] ev1] eqn:E. destruct (Hszl _ _ _ _ E) as [Hd Hno].
+        destruct o1 as [l| | | |].
+        * destruct (iflatslices nxl n l q1) as [[o2 [b2 q2]] ev2] eqn:E2.
+          simpl in Hc. inv_ret Hc. destruct (IH _ _ _ _ _ _ E2) as [Hd2 Hno2].
+          destruct Hd as [Hd Hnil]. simpl. split.
+          -- destruct o; lia.
+          -- intros H1 H2. apply Hno2; [|lia].
+             destruct l as [|y l]; simpl in *; [specialize (Hnil eq_refl); lia|lia].
+        * inv_ret Hc. szsolve.
+        * inv_ret Hc. szsolve.
+        * inv_ret Hc. szsolve.
+        * inv_ret Hc. szsolve.
+      + inv_ret Hc. szsolve.
+  Qed.
+End GenericSizeFS.
+
+(* Runs (iterator) *)
+Section GenericSizeRuns.
+  Context {St : Type} (nx : St -> ret Z St) (sz : St -> nat) (F : nat).
+  Hypothesis Hsz : szZ nx sz F.
+  Variable r : rel.
+
+  Definition rsz (cur : runcur) (p : pk St) : nat :=
+    runs_w r cur (pk_has p) (pk_curr p) + 3 * sz (pk_in p).
+
+  Lemma ipk_peek_item p x p' ev :
+    ipk_peek nx p = (Item x, p', ev) -> pk_has p' = true /\ pk_curr p' = x.
+  Proof.
+    destruct p as [has curr s]. unfold ipk_peek. simpl. destruct has.
+    - intros Hc. inv_ret Hc. auto.
+    - destruct (nx s) as [[o1 s1] ev1]. destruct o1; intros Hc; try discriminate Hc.
+      inv_ret Hc. auto.
+  Qed.
+
+  Lemma ipk_peek_nohas p o p' ev :
+    ipk_peek nx p = (o, p', ev) -> (forall x, o <> Item x) -> pk_has p' = false.
+  Proof.
+    destruct p as [has curr s]. unfold ipk_peek. simpl. destruct has.
+    - intros Hc Hn. inv_ret Hc. destruct (Hn curr eq_refl).
+    - destruct (nx s) as [[o1 s1] ev1]. destruct o1; intros Hc Hn; inv_ret Hc; auto.
+      destruct (Hn x eq_refl).
+  Qed.
+
+  Lemma runs_w_le2 cur has curr : (runs_w r cur has curr <= 2)%nat.
+  Proof.
+    unfold runs_w. destruct has; [|lia]. destruct cur as [[prev [|]]|]; try lia.
+    destruct (rel_eval r prev curr); lia.
+  Qed.
+
+  (* forgetting the current run (or marking it finished) never lowers the weight *)
+  Lemma runs_w_mono prev b has curr :
+    (runs_w r (Some (prev, true)) has curr <= runs_w r (Some (prev, b)) has curr)%nat /\
+    (runs_w r (Some (prev, b)) has curr <= runs_w r None has curr)%nat /\
+    runs_w r (Some (prev, false)) has curr = runs_w r None has curr.
+  Proof.
+    unfold runs_w. destruct has; [|lia]. destruct b; destruct (rel_eval r prev curr); lia.
+  Qed.
+
+  Lemma ipk_peek_rsz cur p o p' ev :
+    ipk_peek nx p = (o, p', ev) ->
+    (o <> Out -> (rsz cur p' <= rsz cur p)%nat /\ (sz (pk_in p') <= sz (pk_in p))%nat) /\
+    ((sz (pk_in p) <= F)%nat -> o <> Out).
+  Proof.
+    destruct p as [has curr s]. unfold ipk_peek, rsz. simpl. destruct has.
+    - intros Hc. inv_ret Hc. simpl. szsolve.
+    - destruct (nx s) as [[o1 s1] ev1] eqn:E. destruct (Hsz _ _ _ _ E) as [Hd Hno].
+      intros Hc. destruct o1 as [x| | | |]; inv_ret Hc; simpl; try (szsolve; fail).
+      pose proof (runs_w_le2 cur true x). szsolve.
+  Qed.
+
+  Lemma iruns_inner_sz cur p o cur' p' ev :
+    iruns_inner nx r cur p = (o, (cur', p'), ev) ->
+    fst cur' = fst cur /\
+    (match o with
+     | Item _ => rsz (Some cur') p' < rsz (Some cur) p /\ sz (pk_in p') <= sz (pk_in p)
+     | End => rsz (Some cur') p' <= rsz (Some cur) p /\ sz (pk_in p') <= sz (pk_in p) /\
+              snd cur' = false
+     | Out => True
+     | _ => rsz (Some cur') p' <= rsz (Some cur) p /\ sz (pk_in p') <= sz (pk_in p)
+     end)%nat /\
+    ((sz (pk_in p) <= F)%nat -> o <> Out).
+  Proof.
+    destruct cur as [prev alive]. unfold iruns_inner. destruct alive; simpl.
+    - destruct (ipk_peek nx p) as [[o1 p1] ev1] eqn:E1.
+      destruct (ipk_peek_rsz (Some (prev, true)) _ _ _ _ E1) as (Hd1 & Hno1).
+      destruct o1 as [x| | | |].
+      + destruct (ipk_peek_item _ _ _ _ E1) as [Hh Hcu].
+        destruct (Hd1 ltac:(discriminate)) as [Hd1a Hd1b].
+        destruct (rel_eval r prev x) eqn:Es.
+        * destruct p1 as [has1 curr1 s1]. simpl in *. subst has1 curr1.
+          unfold ipk_next. simpl. intros Hc. inv_ret Hc.
+          unfold rsz in *. simpl in *. rewrite Es in Hd1a. szsolve.
+        * intros Hc. inv_ret Hc. unfold rsz, runs_w in *. rewrite Hh in *. rewrite Es in *.
+          szsolve.
+      + destruct (Hd1 ltac:(discriminate)) as [Hd1a Hd1b].
+        pose proof (ipk_peek_nohas _ _ _ _ E1 ltac:(intros; discriminate)) as Hh.
+        intros Hc. inv_ret Hc. simpl. unfold rsz in *. rewrite Hh in *. simpl in *. szsolve.
+      + destruct (Hd1 ltac:(discriminate)) as [Hd1a Hd1b]. intros Hc. inv_ret Hc. simpl. szsolve.
+      + destruct (Hd1 ltac:(discriminate)) as [Hd1a Hd1b]. intros Hc. inv_ret Hc. simpl. szsolve.
+      + intros Hc. inv_ret Hc. simpl. szsolve.
+    - intros Hc. inv_ret Hc. szsolve.
+  Qed.
+
+  Lemma iruns_drain_sz n : forall cur p o cur' p' ev,
+    iruns_drain nx n r cur p = (o, (cur', p'), ev) ->
+    fst cur' = fst cur /\
+    (o <> Out -> (rsz (Some cur') p' <= rsz (Some cur) p)%nat /\
+                 (sz (pk_in p') <= sz (pk_in p))%nat) /\
+    (o = End -> snd cur' = false) /\ (forall u, o <> Item u) /\
+    ((rsz (Some cur) p < n)%nat -> (sz (pk_in p) <= F)%nat -> o <> Out).
+  Proof.
+    induction n as [|n IH]; intros cur p o cur' p' ev Hc; simpl in Hc.
+    - inv_ret Hc. szsolve.
+    - destruct (iruns_inner nx r cur p) as [[o1 [cur1 p1]] ev1] eqn:E1.
+      destruct (iruns_inner_sz _ _ _ _ _ _ E1) as (Hf1 & Hd1 & Hno1).
+      destruct o1 as [x| | | |].
+      + destruct (iruns_drain nx n r cur1 p1) as [[o2 [cur2 p2]] ev2] eqn:E2.
+        simpl in Hc. inv_ret Hc.
+        destruct (IH _ _ _ _ _ _ E2) as (Hf2 & Hd2 & He2 & Hni2 & Hno2).
+        split; [congruence|]. split; [intros Ho; specialize (Hd2 Ho); lia|].
+        split; [exact He2|]. split; [exact Hni2|]. intros H1 H2. apply Hno2; lia.
+      + inv_ret Hc. szsolve.
+      + inv_ret Hc. szsolve.
+      + inv_ret Hc. szsolve.
+      + inv_ret Hc. szsolve.
+  Qed.
+
+  Lemma iruns_take_sz n : forall k acc cur p o cur' p' ev,
+    iruns_take nx n r k acc cur p = (o, (cur', p'), ev) ->
+    (match o with
+     | Item l => length l + rsz (Some cur') p' <= length acc + rsz (Some cur) p
+     | Out => True
+     | _ => rsz (Some cur') p' <= rsz (Some cur) p
+     end)%nat /\
+    ((rsz (Some cur) p < n)%nat -> (sz (pk_in p) <= F)%nat -> o <> Out).
+  Proof.
+    induction n as [|n IH]; intros k acc cur p o cur' p' ev Hc; simpl in Hc.
+    - inv_ret Hc. szsolve.
+    - assert (Hgo :
+        (let '(o, (cur', p'), ev) := iruns_inner nx r cur p in
+         match o with
+         | Item x => after ev (iruns_take nx n r (option_map Nat.pred k) (acc ++ [x]) cur' p')
+         | End => (Item acc, (cur', p'), ev)
+         | _ => (pass o, (cur', p'), ev)
+         end) = (o, (cur', p'), ev) ->
+        (match o with
+         | Item l => length l + rsz (Some cur') p' <= length acc + rsz (Some cur) p
+         | Out => True
+         | _ => rsz (Some cur') p' <= rsz (Some cur) p
+         end)%nat /\
+        ((rsz (Some cur) p < S n)%nat -> (sz (pk_in p) <= F)%nat -> o <> Out)).
+      { intros Hc'.
+        destruct (iruns_inner nx r cur p) as [[o1 [cur1 p1]] ev1] eqn:E1.
+        destruct (iruns_inner_sz _ _ _ _ _ _ E1) as (Hf1 & Hd1 & Hno1).
+        destruct o1 as [x| | | |].
+        - destruct (iruns_take nx n r (option_map Nat.pred k) (acc ++ [x]) cur1 p1)
+            as [[o2 [cur2 p2]] ev2] eqn:E2.
+          simpl in Hc'. inv_ret Hc'. destruct (IH _ _ _ _ _ _ _ _ E2) as (Hd2 & Hno2).
+          split; [|intros H1 H2; apply Hno2; lia].
+          destruct o; try lia. rewrite app_length in Hd2. simpl in Hd2. lia.
+        - inv_ret Hc'. szsolve.
+        - inv_ret Hc'. szsolve.
+        - inv_ret Hc'. szsolve.
+        - inv_ret Hc'. szsolve. }
+      destruct k as [[|k]|]; [inv_ret Hc; szsolve|exact (Hgo Hc)|exact (Hgo Hc)].
+  Qed.
+
+  Lemma iruns_sz n k cur p o cur' p' ev :
+    iruns nx n r k cur p = (o, (cur', p'), ev) ->
+    (match o with
+     | Item l => length l + rsz cur' p' < rsz cur p
+     | Out => True
+     | _ => rsz cur' p' <= rsz cur p
+     end)%nat /\
+    ((rsz cur p < n)%nat -> (sz (pk_in p) <= F)%nat -> o <> Out).
+  Proof.
+    unfold iruns.
+    assert (Hdr : exists o1 p1 ev1,
+               match cur with
+               | Some c => let '(o, (_, p'), ev) := iruns_drain nx n r c p in (o, p', ev)
+               | None => (End, p, [])
+               end = (o1 : res unit, p1, ev1) /\
+               (o1 <> Out -> (rsz cur p1 <= rsz cur p)%nat /\
+                             (sz (pk_in p1) <= sz (pk_in p))%nat) /\
+               (o1 = End -> (rsz None p1 <= rsz cur p)%nat) /\ (forall u, o1 <> Item u) /\
+               ((rsz cur p < n)%nat -> (sz (pk_in p) <= F)%nat -> o1 <> Out)).
+    { destruct cur as [c|].
+      - destruct (iruns_drain nx n r c p) as [[o1 [c1 p1]] ev1] eqn:E1.
+        destruct (iruns_drain_sz _ _ _ _ _ _ _ E1) as (Hf1 & Hd1 & He1 & Hni1 & Hno1).
+        exists o1, p1, ev1. split; [reflexivity|].
+        destruct c as [prev al]. destruct c1 as [prev1 al1]. simpl in Hf1. subst prev1.
+        split; [|split; [|split; [exact Hni1|exact Hno1]]].
+        + intros Ho. destruct (Hd1 Ho) as [Ha Hb]. split; [|exact Hb].
+          unfold rsz in *.
+          pose proof (runs_w_mono prev al1 (pk_has p1) (pk_curr p1)) as (Hm1 & _).
+          destruct al.
+          * lia.
+          * (* a finished run stays finished *)
+            assert (al1 = false).
+            { clear - E1. revert p o1 al1 p1 ev1 E1.
+              induction n as [|m IHm]; intros p o1 al1 p1 ev1 E1; simpl in E1.
+              - inv_ret E1. reflexivity.
+              - unfold iruns_inner in E1. simpl in E1. inv_ret E1. reflexivity. }
+            subst al1. lia.
+        + intros Ho. subst o1. specialize (He1 eq_refl). simpl in He1. subst al1.
+          destruct (Hd1 ltac:(discriminate)) as [Ha Hb]. unfold rsz in *.
+          pose proof (runs_w_mono prev false (pk_has p1) (pk_curr p1)) as (_ & _ & Hm).
+          lia.
+      - exists End, p, []. split; [reflexivity|]. szsolve. }
+    destruct Hdr as (o1 & p1 & ev1 & Hdr & Hd1 & He1 & Hni1 & Hno1). rewrite Hdr. clear Hdr.
+    destruct o1 as [u| | | |].
+    - destruct (Hni1 u eq_refl).
+    - specialize (He1 eq_refl). destruct (Hd1 ltac:(discriminate)) as [Hd1a Hd1b].
+      destruct (ipk_peek nx p1) as [[o2 p2] ev2] eqn:E2.
+      destruct (ipk_peek_rsz None _ _ _ _ E2) as (Hd2 & Hno2).
+      destruct o2 as [x| | | |].
+      + destruct (Hd2 ltac:(discriminate)) as [Hd2a Hd2b].
+        destruct (ipk_peek_item _ _ _ _ E2) as [Hh Hcu].
+        destruct (iruns_take nx n r k [] (x, true) p2) as [[o3 [c3 p3]] ev3] eqn:E3.
+        destruct (iruns_take_sz _ _ _ _ _ _ _ _ _ E3) as (Hd3 & Hno3).
+        assert (Hw : (rsz (Some (x, true)) p2 + 1 <= rsz None p2)%nat).
+        { unfold rsz, runs_w. rewrite Hh, Hcu, rel_refl. lia. }
+        intros Hc. inv_ret Hc.
+        split.
+        * destruct o; simpl in *; lia.
+        * intros H1 H2. apply Hno3; lia.
+      + destruct (Hd2 ltac:(discriminate)) as [Hd2a Hd2b]. intros Hc. inv_ret Hc. szsolve.
+      + destruct (Hd2 ltac:(discriminate)) as [Hd2a Hd2b]. intros Hc. inv_ret Hc. simpl.
+        split; [|szsolve].
+        pose proof (ipk_peek_nohas _ _ _ _ E2 ltac:(intros; discriminate)) as Hh.
+        unfold rsz, runs_w in *. rewrite Hh in *. lia.
+      + destruct (Hd2 ltac:(discriminate)) as [Hd2a Hd2b]. intros Hc. inv_ret Hc. simpl.
+        split; [|szsolve].
+        pose proof (ipk_peek_nohas _ _ _ _ E2 ltac:(intros; discriminate)) as Hh.
+        unfold rsz, runs_w in *. rewrite Hh in *. lia.
+      + intros Hc. inv_ret Hc. split; [exact I|]. intros H1 H2. exfalso.
+        apply Hno2; [lia|reflexivity].
+    - intros Hc. inv_ret Hc. simpl. destruct (Hd1 ltac:(discriminate)). szsolve.
+    - intros Hc. inv_ret Hc. simpl. destruct (Hd1 ltac:(discriminate)). szsolve.
+    - intros Hc. inv_ret Hc. simpl. split; [exact I|]. intros H1 H2. exfalso.
+      apply (Hno1 H1 H2). reflexivity.
+  Qed.
+End GenericSizeRuns.
